@@ -10,6 +10,7 @@ from ..lexmodel import LexModel
 from ..model import AnalysisError, attr_chain, is_self_attr, norm, short, walk_local
 from ..pmodel import ParserModel
 from ..report import Ctx
+from .. import balanced
 from ..tokbuf import FillModel
 from ..vmodel import VisitorModel
 from .. import swap
@@ -203,8 +204,9 @@ def run(ctx: Ctx) -> None:
             recv = st.targets[0].id
     guard = _parent_none_guard(pcfg, recv) if recv else None
     ctx.ob("R6.4", "parser:CxxParser._pop_state|unbalanced '}' raises", guard is not None, msg="no `parent is None -> raise` check: a stray '}' pops the root block", node=pm.fn("_pop_state"), mod=mod)
-    _bracket_mismatch(ctx, pm)
-    _unchecked_pops(ctx, pm)
+    # the balanced consumer, interpreted over bracket scripts (sa/balanced.py): a closer that is not the innermost
+    # expectation raises at that token, and nothing is accepted early or late
+    balanced.obligations(ctx, "R6.4", pm, ("raise", "return"))
     _validate_after_parse_type(ctx, pm)
     _validate_flags(ctx, pm)
 
@@ -264,50 +266,6 @@ def run(ctx: Ctx) -> None:
     from . import c10
     from ..report import SubCtx
     c10.run(SubCtx(ctx, {"R10.3": ("R6.6", "#line re-basing: line_offset = physical lineno - N + 1, file name from the same match (so an error after a #line directive names the directive's file and line)")}))  # type: ignore[arg-type]
-
-def _bracket_mismatch(ctx: Ctx, pm: ParserModel) -> None:
-    fname = "_consume_balanced_tokens"
-    fn = pm.fn(fname)
-    cfg = pm.cfg(fname)
-    mod = pm.mod
-    # `expected = <stack>.pop()` and a test `tok.type != expected`
-    exp = None
-    for n in cfg.nodes:
-        st = n.stmt
-        if n.kind == "stmt" and isinstance(st, ast.Assign) and isinstance(st.value, ast.Call) and (attr_chain(st.value.func) or ("",))[-1] == "pop" and isinstance(st.targets[0], ast.Name):
-            exp = st.targets[0].id
-    test = None
-    for n in cfg.nodes:
-        c = n.cond
-        if n.kind == "test" and isinstance(c, ast.Compare) and len(c.ops) == 1 and isinstance(c.ops[0], (ast.NotEq, ast.Eq)):
-            names = {norm(c.left), norm(c.comparators[0])}
-            if exp and exp in names and any(x.endswith(".type") for x in names):
-                test = n
-    ok = test is not None
-    why = "no comparison of the closing token with the expected closer"
-    if ok:
-        lab = "T" if isinstance(test.cond.ops[0], ast.NotEq) else "F"
-        # from the mismatch edge a raise must be reachable, passing only tests that mention '>'
-        seen = set()
-        st = [s for s, l in test.succ if l == lab]
-        found = False
-        while st:
-            x = st.pop()
-            if x.id in seen:
-                continue
-            seen.add(x.id)
-            if x.kind == "stmt" and isinstance(x.stmt, ast.Raise):
-                found = True
-                break
-            if x.kind == "test" and x.cond is not None and "'>'" not in norm(x.cond):
-                continue
-            if x.kind == "test" and x.loop is not None:
-                continue
-            st.extend(s for s, l in x.succ if l != "exc")
-        ok = found
-        why = "a mismatched closing bracket no longer raises (apart from the '<' '>' tolerance)"
-    ctx.ob("R6.4", "parser:CxxParser._consume_balanced_tokens|bracket mismatch raises", ok, msg=why, node=fn, mod=mod)
-
 
 def _validate_after_parse_type(ctx: Ctx, pm: ParserModel) -> None:
     """Every `X, M = self._parse_type(...)`: on every completing path M.validate(...) is
@@ -370,87 +328,6 @@ def _validate_after_parse_type(ctx: Ctx, pm: ParserModel) -> None:
                 stack.append(s)
         ctx.ob("R6.4", f"parser:CxxParser.{fname}|{mvar}.validate after _parse_type", leak is None,
                msg=f"a path from `{short(st)}` reaches the end of {fname} without {mvar}.validate(...): specifiers that are not allowed here are silently accepted", node=call, mod=mod)
-
-
-def _unchecked_pops(ctx: Ctx, pm: ParserModel) -> None:
-    """No expectation is removed from the stack without having been compared with the
-    closing token: a pop either binds its value (which is then compared) or sits in the
-    top-down scan that found an equal entry."""
-    fname = "_consume_balanced_tokens"
-    fn = pm.fn(fname)
-    cfg = pm.cfg(fname)
-    mod = pm.mod
-    bad = []
-    n_pops = 0
-    for n in cfg.nodes:
-        st = n.stmt
-        if n.kind == "test" and n.cond is not None:
-            # `while stack.pop() != tok.type`: every value taken off is compared with the closing token right there
-            for c in ast.walk(n.cond):
-                if isinstance(c, ast.Call) and isinstance(c.func, ast.Attribute) and c.func.attr == "pop" and "stack" in norm(c.func.value):
-                    n_pops += 1
-                    par_ = mod.parent.get(c)
-                    if not (isinstance(par_, ast.Compare) and ".type" in norm(par_)):
-                        bad.append(short(n.cond))
-            continue
-        if n.kind != "stmt":
-            continue
-        for c in n.calls():
-            if isinstance(c.func, ast.Attribute) and c.func.attr == "pop" and "stack" in norm(c.func.value):
-                n_pops += 1
-                if isinstance(st, ast.Assign) and st.value is c and isinstance(st.targets[0], ast.Name):
-                    var = st.targets[0].id
-                    # the bound value must be compared with the token's type on every path before it dies
-                    cmp_nodes = [m for m in cfg.nodes if m.kind == "test" and m.cond is not None and any(isinstance(x, ast.Name) and x.id == var for x in ast.walk(m.cond)) and ".type" in norm(m.cond)]
-                    if not cmp_nodes or not all(True for _ in cmp_nodes) or cfg.paths_avoiding(n, cfg.exit, lambda y: y in cmp_nodes) and not any(cfg.dominates(n, m) for m in cmp_nodes):
-                        bad.append(short(st))
-                    # first node after the pop that is a test must be (or lead to) the comparison: no other pop in between
-                    continue
-                # discarded pop: must be dominated by an equality test `tok.type == <element of the stack scan>` (T side)
-                ok = False
-                for i in cfg.dominators().get(n.id, ()):
-                    d = cfg.nodes[i]
-                    cnd = d.cond
-                    if d.kind == "test" and isinstance(cnd, ast.Compare) and len(cnd.ops) == 1 and isinstance(cnd.ops[0], ast.Eq) and ".type" in norm(cnd):
-                        other = cnd.comparators[0] if ".type" in norm(cnd.left) else cnd.left
-                        if isinstance(other, ast.Name) and _is_scan_var(fn, other.id):
-                            fs = [x for x, lab in d.succ if lab == "F"]
-                            if not any(x is n or cfg.paths_avoiding(x, n, lambda y: y is d) for x in fs):
-                                ok = True
-                if not ok:
-                    # `for _ in range(k): stack.pop()` where k is the position of an entry EQUAL to the closing token,
-                    # computed by a search over the stack (next(<n for n, c in enumerate(reversed(stack), 1) if c == type>, 0))
-                    loop = mod.parent.get(st)
-                    while loop is not None and not isinstance(loop, (ast.For, ast.FunctionDef)):
-                        loop = mod.parent.get(loop)
-                    if isinstance(loop, ast.For) and isinstance(loop.iter, ast.Call) and isinstance(loop.iter.func, ast.Name) and loop.iter.func.id == "range" and len(loop.iter.args) == 1:
-                        k = loop.iter.args[0]
-                        kname = k.id if isinstance(k, ast.Name) else (k.left.id if isinstance(k, ast.BinOp) and isinstance(k.left, ast.Name) else None)
-                        if kname:
-                            defs = [x.value for x in walk_local(fn) if isinstance(x, ast.Assign) and any(isinstance(t, ast.Name) and t.id == kname for t in x.targets)]
-                            def is_search(v: ast.AST) -> bool:
-                                if not (isinstance(v, ast.Call) and isinstance(v.func, ast.Name) and v.func.id == "next" and v.args and isinstance(v.args[0], ast.GeneratorExp)):
-                                    return False
-                                g = v.args[0]
-                                gen = g.generators[0]
-                                over_stack = "stack" in norm(gen.iter) or any(isinstance(y, ast.Name) and any(isinstance(z, ast.Assign) and any(isinstance(t, ast.Name) and t.id == y.id for t in z.targets) and "stack" in norm(z.value) for z in walk_local(fn)) for y in ast.walk(gen.iter))
-                                eq = any(isinstance(c_, ast.Compare) and len(c_.ops) == 1 and isinstance(c_.ops[0], ast.Eq) for i_ in gen.ifs for c_ in ast.walk(i_))
-                                return over_stack and eq and len(g.generators) == 1
-                            if defs and all(is_search(v) for v in defs):
-                                ok = True
-                if not ok:
-                    bad.append(short(st))
-    ctx.ob("R6.4", "parser:CxxParser._consume_balanced_tokens|no expectation popped unchecked", n_pops >= 2 and not bad,
-           msg=f"{bad} removes an expected closer from the stack without comparing it with the closing token: a mismatched bracket (e.g. ']]' closing a '[' and an enclosing '(') is silently accepted",
-           node=fn, mod=mod)
-
-
-def _is_scan_var(fn: ast.AST, name: str) -> bool:
-    """name is bound by a for-loop over (reversed / enumerated) the expectation stack."""
-    for l in walk_local(fn):
-        if isinstance(l, ast.For) and "stack" in norm(l.iter) and any(isinstance(x, ast.Name) and x.id == name for x in ast.walk(l.target)):
-            return True
-    return False
 
 
 def _validate_flags(ctx: Ctx, pm: ParserModel) -> None:
